@@ -2,6 +2,8 @@ package main
 
 import (
 	"fmt"
+	"os"
+	"path/filepath"
 	"go/constant"
 	"go/token"
 	"go/types"
@@ -83,26 +85,75 @@ func (vc *VC) posOf(p token.Pos) string {
 	return fmt.Sprintf("%s:%d", f, pp.Line)
 }
 
-// typeFacts assumes what every bit-valid value of a Go type satisfies in the model.
+// typeFacts assumes what every bit-valid value of a Go type satisfies in the model. References
+// never point beyond the allocation frontier ("no dangling references"): this is what makes
+// objects allocated later distinct from everything reachable now.
 func (vc *VC) typeFacts(st *State, v *Term, t types.Type) {
+	if f := vc.factsOf(v, t, st.alloc, 0); f != nil {
+		st.assume(f)
+	}
+}
+
+// factsOf builds the well-formedness formula of a value of Go type t (nil when there is none).
+func (vc *VC) factsOf(v *Term, t types.Type, alloc *Term, depth int) *Term {
 	t = types.Unalias(t)
+	if isNamed(t, "math/big", "Int") {
+		return And(Bin(sortBool, ">=", bigBuf(v), IntLit(0)), Bin(sortBool, "<=", bigBuf(v), alloc))
+	}
+	if isNamed(t, "time", "Time") || isNamed(t, "sync", "Mutex") || isNamed(t, "sync", "RWMutex") || isNamed(t, "sync", "Once") {
+		return nil
+	}
 	switch u := t.Underlying().(type) {
 	case *types.Basic:
 		if u.Info()&types.IsUnsigned != 0 {
-			st.assume(Bin(sortBool, ">=", v, IntLit(0)))
+			return Bin(sortBool, ">=", v, IntLit(0))
 		}
 	case *types.Pointer, *types.Map, *types.Chan:
-		st.assume(Bin(sortBool, ">=", v, IntLit(0)))
-		st.assume(Bin(sortBool, "<=", v, st.alloc))
+		return Bin(sortBool, "<=", v, alloc)
 	case *types.Slice:
-		st.assume(And(Bin(sortBool, ">=", sliceLen(v), IntLit(0)), Bin(sortBool, ">=", sliceCap(v), sliceLen(v)),
-			Bin(sortBool, ">=", sliceOff(v), IntLit(0)), Bin(sortBool, ">=", sliceArr(v), IntLit(0)), Bin(sortBool, "<=", sliceArr(v), st.alloc),
-			Implies(Eq(sliceArr(v), IntLit(0)), Eq(sliceCap(v), IntLit(0)))))
+		return And(Bin(sortBool, ">=", sliceLen(v), IntLit(0)), Bin(sortBool, ">=", sliceCap(v), sliceLen(v)),
+			Bin(sortBool, ">=", sliceOff(v), IntLit(0)), Bin(sortBool, ">=", sliceArr(v), IntLit(0)), Bin(sortBool, "<=", sliceArr(v), alloc),
+			Implies(Eq(sliceArr(v), IntLit(0)), Eq(sliceCap(v), IntLit(0))))
 	case *types.Interface:
-		st.assume(Implies(Eq(ifaceTag(v), IntLit(0)), Eq(ifaceVal(v), IntLit(0))))
-		st.assume(Bin(sortBool, ">=", ifaceTag(v), IntLit(0)))
-		st.assume(Bin(sortBool, "<=", ifaceVal(v), st.alloc))
+		return And(Implies(Eq(ifaceTag(v), IntLit(0)), Eq(ifaceVal(v), IntLit(0))), Bin(sortBool, ">=", ifaceTag(v), IntLit(0)), Bin(sortBool, "<=", ifaceVal(v), alloc))
+	case *types.Struct:
+		if v.Sort.Kind != KStruct || depth > 3 {
+			return nil
+		}
+		var parts []*Term
+		for i := 0; i < u.NumFields(); i++ {
+			if f := vc.factsOf(FieldGet(v, i), u.Field(i).Type(), alloc, depth+1); f != nil {
+				parts = append(parts, f)
+			}
+		}
+		if len(parts) == 0 {
+			return nil
+		}
+		return And(parts...)
 	}
+	return nil
+}
+
+// heapFacts: every object in a (fresh or initial) heap of struct / big.Int sort is well-formed.
+func (vc *VC) heapFacts(h *Term, s *Sort, alloc *Term) *Term {
+	var gt types.Type
+	switch s.Kind {
+	case KStruct:
+		gt = s.Go
+	case KBig:
+		gt = vc.eng.bigIntType()
+	}
+	if gt == nil {
+		return nil
+	}
+	q := fmt.Sprintf("hf%d", vc.nfresh)
+	vc.nfresh++
+	obj := T(s, "(select "+h.S+" "+q+")")
+	f := vc.factsOf(obj, gt, alloc, 0)
+	if f == nil {
+		return nil
+	}
+	return T(sortBool, fmt.Sprintf("(forall ((%s Int)) (! %s :pattern ((select %s %s))))", q, f.S, h.S, q))
 }
 
 func (vc *VC) freshValue(st *State, t types.Type, hint string) Value {
@@ -213,6 +264,19 @@ func (vc *VC) tv(st *State, f *Frame, v ssa.Value) *Term {
 // obligations
 
 func (vc *VC) script(st *State, goal *Term, values []string) string {
+	return vc.scriptPrefix(st) + scriptGoal(goal.S, values)
+}
+
+func scriptGoal(goal string, values []string) string {
+	var b strings.Builder
+	b.WriteString("(assert (not " + goal + "))\n(check-sat)\n")
+	for _, v := range values {
+		b.WriteString("(get-value (" + v + "))\n")
+	}
+	return b.String()
+}
+
+func (vc *VC) scriptPrefix(st *State) string {
 	var b strings.Builder
 	b.WriteString(vc.eng.st.Preamble())
 	b.WriteString(vc.eng.strPreamble())
@@ -225,10 +289,6 @@ func (vc *VC) script(st *State, goal *Term, values []string) string {
 	}
 	for _, a := range st.pc {
 		b.WriteString("(assert " + a + ")\n")
-	}
-	b.WriteString("(assert (not " + goal.S + "))\n(check-sat)\n")
-	for _, v := range values {
-		b.WriteString("(get-value (" + v + "))\n")
 	}
 	return b.String()
 }
@@ -263,7 +323,16 @@ func (vc *VC) oblige(st *State, kind string, goal *Term, props []string, pos str
 	for k, v := range vc.valueLabels {
 		o.Labels[k] = v
 	}
-	o.Script = vc.script(st, goal, o.Values)
+	if vc.groupKey != "" {
+		if vc.groupPrefix == "" {
+			vc.groupPrefix = vc.scriptPrefix(st)
+		}
+		o.Prefix = vc.groupPrefix
+		o.Group = vc.groupKey
+	} else {
+		o.Prefix = vc.scriptPrefix(st)
+	}
+	o.Script = o.Prefix + scriptGoal(goal.S, o.Values)
 	vc.obls = append(vc.obls, o)
 }
 
@@ -275,11 +344,59 @@ func (vc *VC) cover(st *State, kind string, pos string) {
 	vc.obls = append(vc.obls, o)
 }
 
+// site names the instruction being executed in a way that survives unrelated edits: the
+// function, the class of the instruction (callee name for calls) and its ordinal among the
+// instructions of that class in the function (source order).
+func (vc *VC) site() string {
+	ins := vc.curIns
+	if ins == nil || ins.Parent() == nil {
+		return "?"
+	}
+	fn := ins.Parent()
+	ords := vc.eng.siteOrds[fn]
+	if ords == nil {
+		ords = map[ssa.Instruction]string{}
+		counts := map[string]int{}
+		for _, b := range fn.Blocks {
+			for _, in := range b.Instrs {
+				cls := insClass(in)
+				ords[in] = fmt.Sprintf("%s#%d", cls, counts[cls])
+				counts[cls]++
+			}
+		}
+		vc.eng.siteOrds[fn] = ords
+	}
+	if fn == vc.fn {
+		return ords[ins]
+	}
+	return fn.Name() + "." + ords[ins]
+}
+
+func insClass(in ssa.Instruction) string {
+	if c, ok := in.(ssa.CallInstruction); ok {
+		cc := c.Common()
+		if cc.IsInvoke() {
+			return cc.Method.Name()
+		}
+		if callee := cc.StaticCallee(); callee != nil {
+			return callee.Name()
+		}
+		if k := funcFieldOf(cc.Value); k != "" {
+			return lastSeg(k)
+		}
+		if b, ok := cc.Value.(*ssa.Builtin); ok {
+			return b.Name()
+		}
+		return "dyncall"
+	}
+	t := fmt.Sprintf("%T", in)
+	return strings.TrimPrefix(t, "*ssa.")
+}
+
 // safetyCheck emits a safety obligation when the sweep is on, and assumes the fact afterwards.
 func (vc *VC) safetyCheck(st *State, what string, goal *Term, pos token.Pos) {
 	if vc.safety {
-		vc.oblCount[what]++
-		kind := fmt.Sprintf("safety:%s#%d", what, vc.oblCount[what]-1)
+		kind := fmt.Sprintf("safety:%s@%s", what, vc.site())
 		vc.oblige(st, kind, goal, vc.safetyProps(), vc.posOf(pos))
 	}
 	st.assume(goal)
@@ -297,6 +414,20 @@ func (vc *VC) explore(init *State) {
 		work = work[:len(work)-1]
 		for !st.dead {
 			forks := vc.step(st)
+			if len(forks) > 0 && vc.npaths+len(work) > 48 {
+				// many paths: prune infeasible branches with the solver
+				var keep []*State
+				for _, fk := range forks {
+					if vc.feasible(fk) {
+						keep = append(keep, fk)
+					}
+				}
+				forks = keep
+				if !st.dead && !vc.feasible(st) {
+					st.dead = true
+					vc.npruned++
+				}
+			}
 			work = append(work, forks...)
 			if len(work) > vc.maxPaths {
 				refuse("more than %d pending paths", vc.maxPaths)
@@ -307,6 +438,36 @@ func (vc *VC) explore(init *State) {
 			refuse("more than %d paths", vc.maxPaths)
 		}
 	}
+}
+
+// feasible asks the solver whether the path condition is satisfiable (unknown counts as feasible).
+func (vc *VC) feasible(st *State) bool {
+	if st.dead {
+		return false
+	}
+	dir := vc.eng.pruneDir
+	if dir == "" {
+		return true
+	}
+	vc.nprune++
+	file := filepath.Join(dir, fmt.Sprintf("prune_%d.smt2", vc.nprune%16))
+	// quantified assumptions are dropped: fewer assumptions keep an "unsat" answer sound, and
+	// the solver answers quantifier-free queries at once
+	var b strings.Builder
+	for _, ln := range strings.Split(vc.script(st, tFalse, nil), "\n") {
+		if strings.HasPrefix(ln, "(assert") && strings.Contains(ln, "(forall ") {
+			continue
+		}
+		b.WriteString(ln)
+		b.WriteByte('\n')
+	}
+	os.WriteFile(file, []byte(b.String()), 0o644)
+	ans, _, _ := runSolver(solvers[0], file, 1, 0)
+	if ans == "unsat" {
+		vc.npruned++
+		return false
+	}
+	return true
 }
 
 func (vc *VC) enterBlock(st *State, f *Frame, from, to *ssa.BasicBlock) []*State {
@@ -371,6 +532,7 @@ func (vc *VC) step(st *State) []*State {
 		refuse("fell off block %d of %s", f.block.Index, f.fn)
 	}
 	ins := f.block.Instrs[f.idx]
+	vc.curIns = ins
 	switch x := ins.(type) {
 	case *ssa.If:
 		cond := vc.tv(st, f, x.Cond)
@@ -398,8 +560,7 @@ func (vc *VC) step(st *State) []*State {
 		return vc.doReturn(st, f, res, x.Pos())
 	case *ssa.Panic:
 		if vc.safety {
-			vc.oblCount["panic"]++
-			vc.oblige(st, fmt.Sprintf("safety:panic#%d", vc.oblCount["panic"]-1), tFalse, vc.safetyProps(), vc.posOf(x.Pos()))
+			vc.oblige(st, fmt.Sprintf("safety:panic@%s", vc.site()), tFalse, vc.safetyProps(), vc.posOf(x.Pos()))
 		}
 		st.dead = true
 		return nil
@@ -1025,71 +1186,68 @@ func (vc *VC) havocLoop(st *State, f *Frame, li *loopInfo) {
 		_ = old
 	}
 	mods := vc.loopMods(f.fn, li, map[*ssa.Function]bool{})
-	seen := map[string]bool{}
+	allocAtEntry := st.alloc
+	type heapPlan struct {
+		full    bool
+		newOnly bool
+		refs    []*Term
+		sort    *Sort // object sort (obj) or element sort (arr)
+		arr     bool
+	}
+	plans := map[string]*heapPlan{}
+	var order []string
+	plan := func(name string, s *Sort, arr bool) *heapPlan {
+		p, ok := plans[name]
+		if !ok {
+			p = &heapPlan{sort: s, arr: arr}
+			plans[name] = p
+			order = append(order, name)
+		}
+		return p
+	}
+	mapSeen := map[string]bool{}
 	for _, m := range mods {
 		switch m.kind {
 		case "all":
 			vc.havocAll(st)
 			vc.note("loop %d of %s: all heaps havocked at the loop head (%s)", li.ordinal, f.fn.Name(), m.heap)
-		case "obj":
+		case "obj", "arr":
+			p := plan(m.heap, m.sort, m.kind == "arr")
 			if m.ref != nil {
-				if p, ok := f.regs[m.ref].(*Ptr); ok && p.Root == RObj {
-					key := m.heap + "@" + p.Base.S
-					if seen[key] || seen[m.heap] {
-						continue
-					}
-					seen[key] = true
-					n, h := vc.objHeap(st, m.sort)
-					vc.setHeap(st, n, Store(h, p.Base, vc.fresh("lh", m.sort)))
+				if pv, ok := f.regs[m.ref].(*Ptr); ok && len(pv.Path) == 0 {
+					p.refs = append(p.refs, pv.Base)
 					continue
 				}
 			}
-			if seen[m.heap] {
-				continue
-			}
-			seen[m.heap] = true
-			n, _ := vc.objHeap(st, m.sort)
-			st.heaps[n] = vc.fresh(n, T.ArrayOf(sortInt, m.sort))
-		case "arr":
-			if m.ref != nil {
-				if p, ok := f.regs[m.ref].(*Ptr); ok && p.Root == RArr {
-					key := m.heap + "@" + p.Base.S
-					if seen[key] || seen[m.heap] {
-						continue
-					}
-					seen[key] = true
-					n, h := vc.arrHeap(st, m.sort)
-					vc.setHeap(st, n, Store(h, p.Base, vc.fresh("la", T.ArrayOf(sortInt, m.sort))))
-					continue
-				}
-			}
-			if seen[m.heap] {
-				continue
-			}
-			seen[m.heap] = true
-			n, h := vc.arrHeap(st, m.sort)
-			nh := vc.fresh(n, h.Sort)
-			// arrays allocated before the loop and not reachable for writing keep their contents
-			// only when nothing in the loop stores into existing arrays: appends allocate or
-			// write beyond len; this is not assumed here (full havoc).
-			st.heaps[n] = nh
-		case "map":
+			p.full = true
+		case "obj-new", "arr-new":
+			plan(m.heap, m.sort, m.kind == "arr-new").newOnly = true
+		case "map", "map-new":
 			ks, es := T.SortOf(m.mt.Key()), T.SortOf(m.mt.Elem())
 			mh := vc.mapHeapsOf(st, ks, es)
-			if seen[mh.pn] {
-				continue
+			if m.kind == "map" {
+				if mapSeen[mh.pn] {
+					continue
+				}
+				mapSeen[mh.pn] = true
+				st.heaps[mh.pn] = vc.fresh(mh.pn, mh.p.Sort)
+				st.heaps[mh.vn] = vc.fresh(mh.vn, mh.v.Sort)
+				st.heaps[mh.nn] = vc.fresh(mh.nn, mh.n.Sort)
+				vc.measureHavoc(st, m.mt)
+			} else if !mapSeen[mh.pn] && !mapSeen["new:"+mh.pn] {
+				mapSeen["new:"+mh.pn] = true
+				for _, hn := range []string{mh.pn, mh.vn, mh.nn} {
+					old := st.heaps[hn]
+					nh := vc.fresh(hn, old.Sort)
+					vc.frameOld(st, nh, old, allocAtEntry)
+					st.heaps[hn] = nh
+				}
 			}
-			seen[mh.pn] = true
-			st.heaps[mh.pn] = vc.fresh(mh.pn, mh.p.Sort)
-			st.heaps[mh.vn] = vc.fresh(mh.vn, mh.v.Sort)
-			nn := vc.fresh(mh.nn, mh.n.Sort)
-			st.heaps[mh.nn] = nn
-			vc.measureHavoc(st, m.mt)
 		case "ghost":
-			if seen["g:"+m.heap] {
+			if mapSeen["g:"+m.heap] {
 				continue
 			}
-			seen["g:"+m.heap] = true
+			mapSeen["g:"+m.heap] = true
 			if g, ok := vc.eng.db.Ghosts[m.heap]; ok {
 				env := (&Env{vc: vc, st: st, nq: &vc.nq}).inPkg(g.Pkg)
 				_, gs := env.resolveType(g.Type)
@@ -1100,6 +1258,40 @@ func (vc *VC) havocLoop(st *State, f *Frame, li *loopInfo) {
 				}
 			}
 		}
+	}
+	for _, name := range order {
+		p := plans[name]
+		var cur *Term
+		if p.arr {
+			_, cur = vc.arrHeap(st, p.sort)
+		} else {
+			_, cur = vc.objHeap(st, p.sort)
+		}
+		if p.full {
+			nh := vc.fresh(name, cur.Sort)
+			st.heaps[name] = nh
+			if !p.arr {
+				if f := vc.heapFacts(nh, p.sort, st.alloc); f != nil {
+					st.assume(f)
+				}
+			}
+			continue
+		}
+		for _, r := range p.refs {
+			fv := vc.fresh("lh", cur.Sort.Elem)
+			if !p.arr && p.sort.Kind == KStruct && p.sort.Go != nil {
+				vc.typeFacts(st, fv, p.sort.Go)
+			} else if !p.arr && p.sort.Kind == KBig {
+				st.assume(And(Bin(sortBool, ">=", bigBuf(fv), IntLit(0)), Bin(sortBool, "<=", bigBuf(fv), st.alloc)))
+			}
+			cur = Store(cur, r, fv)
+		}
+		if p.newOnly {
+			nh := vc.fresh(name, cur.Sort)
+			vc.frameOld(st, nh, cur, allocAtEntry)
+			cur = nh
+		}
+		vc.setHeap(st, name, cur)
 	}
 	// iterators advanced inside the loop
 	for itv, it := range f.iters {
@@ -1120,9 +1312,23 @@ func (vc *VC) havocLoop(st *State, f *Frame, li *loopInfo) {
 	na := vc.fresh("alloc", sortInt)
 	st.assume(Bin(sortBool, ">=", na, st.alloc))
 	st.alloc = na
-	nc := vc.fresh("clock", sortInt)
-	st.assume(Bin(sortBool, ">=", nc, st.clock))
-	st.clock = nc
+	for _, m := range mods {
+		if m.kind == "clock" || m.kind == "all" {
+			nc := vc.fresh("clock", sortInt)
+			st.assume(Bin(sortBool, ">=", nc, st.clock))
+			st.clock = nc
+			break
+		}
+	}
+}
+
+// frameOld: objects that existed before the loop keep their contents (only objects allocated
+// inside the loop are written).
+func (vc *VC) frameOld(st *State, nh, old, allocAtEntry *Term) {
+	q := fmt.Sprintf("fr%d", vc.nfresh)
+	vc.nfresh++
+	st.assume(T_(sortBool, fmt.Sprintf("(forall ((%s Int)) (! (=> (<= %s %s) (= (select %s %s) (select %s %s))) :pattern ((select %s %s))))",
+		q, q, allocAtEntry.S, nh.S, q, old.S, q, nh.S, q)))
 }
 
 func (vc *VC) havocAll(st *State) {
@@ -1130,7 +1336,13 @@ func (vc *VC) havocAll(st *State) {
 		if strings.HasPrefix(name, "B_") {
 			continue // boxes are immutable
 		}
-		st.heaps[name] = vc.fresh(name, h.Sort)
+		nh := vc.fresh(name, h.Sort)
+		st.heaps[name] = nh
+		if strings.HasPrefix(name, "H_") && h.Sort.Elem != nil {
+			if f := vc.heapFacts(nh, h.Sort.Elem, st.alloc); f != nil {
+				st.assume(f)
+			}
+		}
 	}
 	for name, g := range st.ghosts {
 		st.ghosts[name] = vc.fresh("G_"+name, g.Sort)
@@ -1166,15 +1378,20 @@ func (vc *VC) addrTarget(addr ssa.Value, li *loopInfo) modTarget {
 		return modTarget{kind: "all", heap: "store through " + root.Type().String()}
 	}
 	var ref ssa.Value
-	if a, isAlloc := root.(*ssa.Alloc); isAlloc && (li == nil || !li.body[a.Block()]) {
-		ref = a
+	suffix := ""
+	if a, isAlloc := root.(*ssa.Alloc); isAlloc {
+		if li != nil && !li.body[a.Block()] {
+			ref = a
+		} else {
+			suffix = "-new" // a fresh object per iteration / per call
+		}
 	}
 	if arr, isArr := pt.Elem().Underlying().(*types.Array); isArr {
 		es := T.SortOf(arr.Elem())
-		return modTarget{heap: heapName("HA", es), sort: es, kind: "arr", ref: ref}
+		return modTarget{heap: heapName("HA", es), sort: es, kind: "arr" + suffix, ref: ref}
 	}
 	s := T.SortOf(pt.Elem())
-	return modTarget{heap: heapName("H", s), sort: s, kind: "obj", ref: ref}
+	return modTarget{heap: heapName("H", s), sort: s, kind: "obj" + suffix, ref: ref}
 }
 
 // loopMods computes what the blocks of a loop (or, with li == nil, a whole function) may modify.
@@ -1194,23 +1411,24 @@ func (vc *VC) loopMods(fn *ssa.Function, li *loopInfo, visiting map[*ssa.Functio
 				out = append(out, vc.addrTarget(x.Addr, li))
 			case *ssa.Alloc:
 				elem := x.Type().(*types.Pointer).Elem()
-				if li != nil {
-					// a fresh object per iteration: only that fresh object is written, which cannot
-					// be an object known before the loop. Nothing to havoc for existing objects,
-					// but the heap constant changes; handled by havocking only when stores target it.
-					_ = elem
+				if arr, isArr := elem.Underlying().(*types.Array); isArr {
+					es := T.SortOf(arr.Elem())
+					out = append(out, modTarget{heap: heapName("HA", es), sort: es, kind: "arr-new"})
+				} else {
+					s := T.SortOf(elem)
+					out = append(out, modTarget{heap: heapName("H", s), sort: s, kind: "obj-new"})
 				}
 			case *ssa.MapUpdate:
 				out = append(out, modTarget{kind: "map", mt: x.Map.Type().Underlying().(*types.Map)})
 			case *ssa.MakeMap:
-				out = append(out, modTarget{kind: "map", mt: x.Type().Underlying().(*types.Map)})
+				out = append(out, modTarget{kind: "map-new", mt: x.Type().Underlying().(*types.Map)})
 			case *ssa.MakeInterface:
 			case *ssa.MakeSlice:
 				es := T.SortOf(x.Type().Underlying().(*types.Slice).Elem())
-				out = append(out, modTarget{heap: heapName("HA", es), sort: es, kind: "arr"})
+				out = append(out, modTarget{heap: heapName("HA", es), sort: es, kind: "arr-new"})
 			case *ssa.Convert:
 				if T.SortOf(x.Type()).Kind == KSlice && T.SortOf(x.X.Type()).Kind == KStr {
-					out = append(out, modTarget{heap: heapName("HA", sortInt), sort: sortInt, kind: "arr"})
+					out = append(out, modTarget{heap: heapName("HA", sortInt), sort: sortInt, kind: "arr-new"})
 				}
 			case ssa.CallInstruction:
 				if _, isGo := x.(*ssa.Go); isGo {
@@ -1259,14 +1477,49 @@ func (vc *VC) loopInvariants(st *State, f *Frame, li *loopInfo, mode string) {
 			break
 		}
 		if phi.Comment == "rangeindex" {
-			if t, ok := f.regs[phi].(*Term); ok && mode != "assume" {
-				vc.oblige(st, fmt.Sprintf("%s/loop%d[rangeindex>=-1]", mode, li.ordinal), Bin(sortBool, ">=", t, IntLit(-1)), vc.props, vc.posOf(phi.Pos()))
+			t, ok := f.regs[phi].(*Term)
+			if !ok {
+				continue
+			}
+			inv := Bin(sortBool, ">=", t, IntLit(-1))
+			// upper bound: the loop test "phi+1 < n" with n defined outside the loop gives phi < n
+			if n := rangeBound(li, phi); n != nil {
+				if nv, ok := f.regs[n].(*Term); ok {
+					inv = And(inv, Bin(sortBool, "<", t, Ite(Bin(sortBool, ">=", nv, IntLit(0)), nv, IntLit(0))))
+				}
+			}
+			if mode == "assume" {
+				st.assume(inv)
+			} else {
+				vc.oblige(st, fmt.Sprintf("%s/loop%d[rangeindex-bounds]", mode, li.ordinal), inv, vc.props, vc.posOf(phi.Pos()))
 			}
 		}
 	}
 	if mode == "inv-entry" && len(clauses) == 0 && c != nil && len(st.frames) == 1 {
 		vc.note("loop %d of %s has no invariant: cut with 'true'", li.ordinal, f.fn.Name())
 	}
+}
+
+// rangeBound finds n in the loop test "(phi + 1) < n" of a rangeindex loop.
+func rangeBound(li *loopInfo, phi *ssa.Phi) ssa.Value {
+	for _, ins := range li.header.Instrs {
+		cmp, ok := ins.(*ssa.BinOp)
+		if !ok || cmp.Op != token.LSS {
+			continue
+		}
+		inc, ok := cmp.X.(*ssa.BinOp)
+		if !ok || inc.Op != token.ADD || inc.X != phi {
+			continue
+		}
+		if k, ok := inc.Y.(*ssa.Const); !ok || k.Int64() != 1 {
+			continue
+		}
+		if y, ok := cmp.Y.(ssa.Instruction); ok && li.body[y.Block()] {
+			continue
+		}
+		return cmp.Y
+	}
+	return nil
 }
 
 func (vc *VC) clauseProps(c *Contract, cl *Clause) []string {
